@@ -1716,6 +1716,11 @@ _patch_case('M', 'C07', 'heldout-m14', 'G6-m14.diff', 'C07.2')
 _patch_case('M', 'C07', 'heldout-m15', 'G6-m15.diff', 'C07.2')
 _patch_case('M', 'C07', 'heldout-m18', 'G6-m18.diff', 'C07.4')
 _patch_case('M', 'C07', 'heldout-m19', 'G6-m19.diff', 'C07.2')
+_patch_case('T', 'C07', 'heldout-c-t02', 'G6-c-t02.diff')
+_patch_case('T', 'C07', 'heldout-c-t04', 'G6-c-t04.diff')
+_patch_case('T', 'C07', 'heldout-c-t08', 'G6-c-t08.diff')
+_patch_case('T', 'C07', 'heldout-c-t09', 'G6-c-t09.diff')
+_patch_case('T', 'C07', 'heldout-c-t11', 'G6-c-t11.diff')
 # --- C07.7 copy fidelity (seeded C07-w2mut2 / w2mut3 families) and further precondition mutants
 M('C07', 'copy-userattribute-through-signature-container', PK, "class UserAttribute(Packet):", "class UserAttribute(Packet):\n    def __copy__(self):\n        ua = UserAttribute()\n        ua.header = copy.copy(self.header)\n        ua.subpackets = copy.copy(self.subpackets)\n        return ua\n", 'C07.7')
 M('C07', 'copy-subpackets-reencoded', FL, "        sp = SubPackets()\n        sp._hashed_sp = self._hashed_sp.copy()\n        sp._unhashed_sp = self._unhashed_sp.copy()\n", "        sp = self.__class__()\n        for (name, _), val in self._hashed_sp.items():\n            sp['h_' + name] = val\n        for (name, _), val in self._unhashed_sp.items():\n            sp[name] = val\n", 'C07.7')
@@ -1906,6 +1911,11 @@ _patch_case('M', 'C16', 'heldout-m08', 'G6-m08.diff', 'C16.2')
 _patch_case('M', 'C16', 'heldout-m09', 'G6-m09.diff', 'C16.2')
 _patch_case('M', 'C16', 'heldout-m10', 'G6-m10.diff', 'C16.6')
 _patch_case('T', 'C16', 'heldout-a-t08', 'G6-a-t08.diff')
+_patch_case('T', 'C16', 'heldout-c-t02', 'G6-c-t02.diff')
+_patch_case('T', 'C16', 'heldout-c-t04', 'G6-c-t04.diff')
+_patch_case('T', 'C16', 'heldout-c-t08', 'G6-c-t08.diff')
+_patch_case('T', 'C16', 'heldout-c-t09', 'G6-c-t09.diff')
+_patch_case('T', 'C16', 'heldout-c-t11', 'G6-c-t11.diff')
 # --- C16.6 session-key rules (own, semantic versions of the shared family functions)
 _C16_SEL = "        pkesk = next(pk for pk in message._sessionkeys if isinstance(pk, PKESessionKey)\n                     and pk.pkalg == self.key_algorithm and pk.encrypter == self.fingerprint.keyid)"
 M('C16', 'pkesk-any-of-algorithm-or-id', PGP, _C16_SEL, "        pkesk = next(pk for pk in message._sessionkeys if isinstance(pk, PKESessionKey)\n                     and (pk.pkalg == self.key_algorithm or pk.encrypter == self.fingerprint.keyid))", 'C16.6')
